@@ -5,18 +5,17 @@ class C14(Spec):
     prop = "C14"
     drv = "drv_c14"
     harness = "h_c14"
-    required_theorems = ("C14.del_after_add_id_plugins", "C14.del_after_add_id_coins_partial", "C14.coins_full_false",
-                         "C14.heightstr_injective", "C14.mvcc_del_after_add_id")
-    partial = ("C14.del_after_add_id_coins_partial", "C14.del_after_add_id_block_partial")
-    refuted = ("C14.coins_full_false",)
+    required_theorems = ("C14.del_after_add_id_plugins", "C14.del_after_add_id_coins", "C14.del_after_add_id_block",
+                         "C14.regression_coins_failed_transfer", "C14.heightstr_injective", "C14.mvcc_del_after_add_id")
     quick_timeout = 1200
     level_text = ("Lean theorems about the model of the local-index writers (txindex, addrindex incl. the per-address "
                   "counter read-modify-write, addrfeeindex, fee, MVCC AddMVCC/DelMVCC, coins ExecLocal/ExecDelLocal, "
                   "AddTxs/DelTxs nil=>delete): for every store and every block (any repetition of addresses, self-transfers, "
                   "failed transactions, groups) whose own slots are fresh, applying the add list and then the del list "
-                  "restores every key observationally (absent = empty value = zero counter); for coins this holds when all "
-                  "coins transactions have receipt ExecOk and is refuted on a concrete block with a failed transfer (S-C14, "
-                  "known finding). Tie: two real testnodes follow the same generated chain; on one of them every height "
+                  "restores every key observationally (absent = empty value = zero counter); for coins and for the whole "
+                  "block the only hypothesis is that no genesis action executed successfully (impossible above height 0); the "
+                  "defect S-C14 found by this check (Coins.ExecLocal counted failed transfers) was repaired in /repo (303f1d2) "
+                  "and is kept as a regression witness. Tie: two real testnodes follow the same generated chain; on one of them every height "
                   "first gets a junk block (coins/none/manage/user transactions, groups, failing ones) that is removed again "
                   "by a reorganisation; the KV sets of the real executor for EventAddBlock/EventDelBlock are compared byte "
                   "for byte with the model, add-then-del is replayed on the real lists, and after the removal every "
